@@ -128,6 +128,8 @@ impl<'a> Hd<'a> {
     }
 }
 
+fn h_reborrow<'a, 'b>(h: &'a mut Hd<'b>) -> &'a mut Hd<'b> { h }
+
 fn finish(h: Hd, key: &[u64]) {
     let (calls, panics) = (h.calls, h.panics);
     h.ctx.count("calls", calls);
@@ -348,6 +350,18 @@ fn sparse(ctx: &mut Ctx, cov: &mut HashSet<String>) {
         { let mut r2 = rng.clone(); h.call("SparseVector::one_iter(double-ended)", "-", 0, || take_back(sv.one_iter(), &mut r2)); }
         { let mut r2 = rng.clone(); h.call("SparseVector::iter(double-ended)", "-", 0, || if n <= 100000 { take_back(sv.iter(), &mut r2) } else { 0 }); }
         h.call("SparseVector::is_multiset", "-", 0, || sv.is_multiset());
+        // Conversions out of the (possibly multiset) sparse vector, then hostile calls on the results.
+        if n <= 200_000 {
+            let mut converted: Option<BitVector> = None;
+            h.call("BitVector::copy_bit_vec(SparseVector)", "-", 0, || { converted = Some(if c % 2 == 0 { BitVector::copy_bit_vec(&sv) } else { BitVector::from(sv.clone()) }); });
+            if let Some(mut bv) = converted {
+                let saved = h.what.clone();
+                h.what = format!("BitVector converted from {}", saved);
+                hostile_bv(h_reborrow(&mut h), &mut rng, &mut bv, None, 10);
+                h.what = saved;
+            }
+            h.call("RLVector::copy_bit_vec(SparseVector)", "-", 0, || { let rv = RLVector::copy_bit_vec(&sv); (rv.len(), rv.count_ones(), rv.one_iter().count()) });
+        }
         // Builder with hostile calls.
         let (u, cls) = hostile(&mut rng, n);
         let cap = rng.below(6);
